@@ -158,8 +158,8 @@ class HostileTexts(gen.Texts):
 
 def hostile_doc(rng):
     import unittest.mock as mock
-    with mock.patch.object(gen, 'Namer', lambda r, fl=None, ov=None: HostileNamer(r)), \
-            mock.patch.object(gen, 'Texts', lambda r, pf='plain': HostileTexts(r, pf)):
+    with mock.patch.object(gen, 'Namer', lambda r, fl=None, ov=None, **kw: HostileNamer(r)), \
+            mock.patch.object(gen, 'Texts', lambda r, pf='plain', **kw: HostileTexts(r, pf)):
         doc = gen.random_doc(rng, rng.choice(['tiny', 'small', 'small']), 'rich', props=rng.random() < 0.4)
     # hostile types / defaults / expressions
     for t in doc.tables:
